@@ -11,3 +11,7 @@ def _i(name, fn, op, tu, tus, props):
                 reach=["post", "a", "b"], props=props, timeout=600, cost=5, object_bits=10)
 GROUPS += [_i("sdo_id_write", "COTSdoIdWrite", 0, "object/cia301/co_sdo_id.c", ["object/basic/co_integer32.c", "service/cia301/co_ssdo.c"], {"C01": "quick", "C04": "quick", "C05": "quick"}),
            _i("emcy_id_write", "COTEmcyIdWrite", 1, "object/cia301/co_emcy_id.c", ["object/basic/co_integer32.c"], {"C01": "quick", "C15": "quick"})]
+def _r(name, fn, op, tus, static_tu=None):
+    return dict(name=name, fn=fn, form="explicit", harness="reset_parts.c", tus=tus, static_tu=static_tu, defs=["VW_OP=%d" % op], nondet_static=True, loop_tus={}, unwind_all=9,
+                reach=["post", "a", "b"], props={"C20": "quick", "C01": "quick"}, timeout=600, cost=5, object_bits=10)
+GROUPS += [_r("sync_init", "COSyncInit", 0, ["service/cia301/co_sync.c"]), _r("lss_init", "COLssInit", 1, ["service/cia305/co_lss.c"]), _r("tmr_clear", "COTmrClear", 2, ["core/co_tmr.c"])]
